@@ -222,7 +222,7 @@ static void blt_case(uint64_t idx, void *vctx)
 #define IH 6
 #define GROWS 4             /* guard rows before and after the image */
 
-typedef struct { int n; pixman_box32_t b[8]; int oob; const char *name; } boxset_t;
+typedef struct { int n; pixman_box32_t b[40]; int oob; const char *name; } boxset_t;
 static const boxset_t BOXSETS[] = {
     { 0, { {0, 0, 0, 0} }, 0, "no boxes" },
     { 1, { {2, 1, 7, 4} }, 0, "one inside" },
@@ -232,13 +232,16 @@ static const boxset_t BOXSETS[] = {
     { 7, { {0, 0, 2, 1}, {3, 0, 5, 2}, {6, 1, 7, 3}, {8, 0, IW, 1}, {1, 3, 4, IH}, {5, 4, 9, 5}, {10, 2, IW, IH} }, 0, "seven boxes" },
     { 3, { {3, 3, 3, 5}, {6, 2, 4, 4}, {1, 1, 2, 2} }, 0, "empty + inverted + one pixel" },
     { 2, { {10, 5, IW, IH}, {0, 2, IW, 3} }, 0, "last pixel + one row" },
+    /* more boxes than any on-stack conversion buffer of the entry points holds */
+    { 17, { {0, 0, 1, 1}, {5, 0, 6, 1}, {10, 0, 11, 1}, {4, 1, 5, 2}, {9, 1, 10, 2}, {3, 2, 4, 3}, {8, 2, 9, 3}, {2, 3, 3, 4}, {7, 3, 8, 4}, {1, 4, 2, 5}, {6, 4, 7, 5}, {0, 5, 1, 6}, {5, 5, 6, 6}, {10, 5, 11, 6}, {4, 0, 5, 1}, {9, 0, 10, 1}, {3, 1, 4, 2} }, 0, "17 single pixels" },
+    { 40, { {0, 0, 2, 1}, {7, 0, 9, 1}, {3, 1, 5, 2}, {10, 1, 11, 2}, {6, 2, 8, 3}, {2, 3, 4, 4}, {9, 3, 11, 4}, {5, 4, 7, 5}, {1, 5, 3, 6}, {8, 5, 10, 6}, {4, 0, 6, 1}, {0, 1, 2, 2}, {7, 1, 9, 2}, {3, 2, 5, 3}, {10, 2, 11, 3}, {6, 3, 8, 4}, {2, 4, 4, 5}, {9, 4, 11, 5}, {5, 5, 7, 6}, {1, 0, 3, 1}, {8, 0, 10, 1}, {4, 1, 6, 2}, {0, 2, 2, 3}, {7, 2, 9, 3}, {3, 3, 5, 4}, {10, 3, 11, 4}, {6, 4, 8, 5}, {2, 5, 4, 6}, {9, 5, 11, 6}, {5, 0, 7, 1}, {1, 1, 3, 2}, {8, 1, 10, 2}, {4, 2, 6, 3}, {0, 3, 2, 4}, {7, 3, 9, 4}, {3, 4, 5, 5}, {10, 4, 11, 5}, {6, 5, 8, 6}, {2, 0, 4, 1}, {9, 0, 11, 1} }, 0, "40 two-pixel boxes (overlapping)" },
     { 1, { {-2, 1, 3, 3} }, 1, "hangs over the left edge" },
     { 1, { {8, 4, 13, 8} }, 1, "hangs over right and bottom" },
     { 1, { {3, -2, 6, 2} }, 1, "hangs over the top" },
     { 1, { {-3, -2, 14, 8} }, 1, "covers more than the image" },
 };
 #define NBOXSETS ((int)(sizeof BOXSETS / sizeof BOXSETS[0]))
-#define NBOXSETS_INBOUNDS 8
+#define NBOXSETS_INBOUNDS 10
 
 typedef struct { int n; pixman_box32_t b[2]; int set; const char *name; } clipdef_t;
 static const clipdef_t CLIPS[] = {
@@ -364,8 +367,8 @@ static int boxes_once(const boxes_ctx *c, int op, int di, const boxset_t *bs, co
     uint64_t writes0 = acc_writes;
 
     /* the boxes actually passed (fill_rectangles cannot express inverted boxes) */
-    pixman_box32_t boxes[8]; int nb = 0;
-    pixman_rectangle16_t rects[8];
+    pixman_box32_t boxes[40]; int nb = 0;
+    pixman_rectangle16_t rects[40];
     for (int i = 0; i < bs->n; i++) {
         const pixman_box32_t *b = &bs->b[i];
         if (api == 1) {
